@@ -141,12 +141,16 @@ fn format_binary_expr(ctx: &FormatContext, plan: &FormatPlan, expr: &LuaBinaryEx
     let left_docs = format_expr(ctx, plan, &left);
     let right_docs = format_expr(ctx, plan, &right);
     let space_rule = space_around_binary_op(op_token.get_op(), ctx.config);
-    let force_space_before = op_token.get_op() == BinaryOperator::OpConcat
-        && space_rule == SpaceRule::NoSpace
-        && left
-            .syntax()
-            .last_token()
-            .is_some_and(|token| token.kind() == LuaTokenKind::TkFloat.into());
+    let (force_space_before, force_space_after) = if space_rule == SpaceRule::NoSpace {
+        required_binary_op_spaces(op_token.get_op(), &left, &right)
+    } else {
+        (false, false)
+    };
+    let space_after_op = if force_space_after {
+        ir::space()
+    } else {
+        space_rule.to_ir()
+    };
 
     if ir::ir_has_forced_line_break(&left_docs)
         && should_attach_short_binary_tail(op_token.get_op(), &right, &right_docs)
@@ -158,7 +162,7 @@ fn format_binary_expr(ctx: &FormatContext, plan: &FormatPlan, expr: &LuaBinaryEx
             docs.push(space_rule.to_ir());
         }
         docs.push(ir::source_token(op_token.syntax().clone()));
-        docs.push(space_rule.to_ir());
+        docs.push(space_after_op);
         docs.extend(right_docs);
         return docs;
     }
@@ -173,7 +177,7 @@ fn format_binary_expr(ctx: &FormatContext, plan: &FormatPlan, expr: &LuaBinaryEx
             docs.push(space_rule.to_ir());
         }
         docs.push(ir::source_token(op_token.syntax().clone()));
-        docs.push(space_rule.to_ir());
+        docs.push(space_after_op);
         docs.extend(right_docs);
         return docs;
     }
@@ -183,10 +187,34 @@ fn format_binary_expr(ctx: &FormatContext, plan: &FormatPlan, expr: &LuaBinaryEx
         ir::indent(vec![
             continuation_break_ir(force_space_before || space_rule != SpaceRule::NoSpace),
             ir::source_token(op_token.syntax().clone()),
-            space_rule.to_ir(),
+            space_after_op,
             ir::list(right_docs),
         ]),
     ])]
+}
+
+/// Spaces (before, after) that a binary operator needs even when the configuration removes the
+/// spaces around it, because it would otherwise fuse with a neighbouring token: `1 .. x` must not
+/// become `1..x` (a malformed number), `a .. .5` not `a...5`, `a - -b` not `a--b` (a comment).
+fn required_binary_op_spaces(op: BinaryOperator, left: &LuaExpr, right: &LuaExpr) -> (bool, bool) {
+    let left_last = left.syntax().last_token();
+    let right_first = right.syntax().first_token();
+    match op {
+        BinaryOperator::OpConcat => (
+            left_last.is_some_and(|token| {
+                matches!(
+                    token.kind().to_token(),
+                    LuaTokenKind::TkInt | LuaTokenKind::TkFloat | LuaTokenKind::TkComplex
+                )
+            }),
+            right_first.is_some_and(|token| token.text().starts_with('.')),
+        ),
+        BinaryOperator::OpSub => (
+            false,
+            right_first.is_some_and(|token| token.text().starts_with('-')),
+        ),
+        _ => (false, false),
+    }
 }
 
 fn raw_short_string_contains_unescaped_quote(raw_body: &str, quote: char) -> bool {
@@ -3406,17 +3434,29 @@ fn build_binary_chain_one_per_line(
 fn build_binary_chain_segment(
     ctx: &FormatContext,
     plan: &FormatPlan,
-    _previous: &LuaExpr,
+    previous: &LuaExpr,
     operand: &LuaExpr,
     op_token: &LuaSyntaxToken,
     op: BinaryOperator,
 ) -> (bool, Vec<DocIR>) {
     let space_rule = space_around_binary_op(op, ctx.config);
+    let (force_space_before, force_space_after) = if space_rule == SpaceRule::NoSpace {
+        required_binary_op_spaces(op, previous, operand)
+    } else {
+        (false, false)
+    };
     let mut segment = Vec::new();
     segment.push(ir::source_token(op_token.clone()));
-    segment.push(space_rule.to_ir());
+    if force_space_after {
+        segment.push(ir::space());
+    } else {
+        segment.push(space_rule.to_ir());
+    }
     segment.extend(format_expr(ctx, plan, operand));
-    (space_rule != SpaceRule::NoSpace, segment)
+    (
+        space_rule != SpaceRule::NoSpace || force_space_before,
+        segment,
+    )
 }
 
 fn continuation_break_ir(flat_space: bool) -> DocIR {
